@@ -87,7 +87,7 @@ This issue can be solved by:
         mode = file_mode_for_path(filename)
 
         try:
-            return format_str(text, mode=mode)
+            formatted_text = format_str(text, mode=mode)
         except:
             raise_problem(
                 """\
@@ -96,3 +96,16 @@ This issue can be solved by:
 """
             )
             return text
+
+        try:
+            ast.parse(formatted_text)
+        except SyntaxError:
+            raise_problem(
+                """\
+[b]black returned code which is not valid python.[/b]
+The unformatted code is used instead.
+"""
+            )
+            return text
+
+        return formatted_text
